@@ -23,6 +23,9 @@ REG1 = '''FUT0.set_callback(CB0, EXTRA0)
 REG2 = '''FUT0.set_callback(CB0, EXTRA0)
 FUT0.set_callback(CB1, EXTRA1)
 '''
+REG2N = '''FUT0.set_callback(CB0, EXTRA0)
+FUT0.set_callback(CB1)
+'''
 OBSERVER = '''d1 = FUT0.done()
 s1 = 0
 try:
@@ -49,14 +52,16 @@ except Exception as e2:
 def build(spec):
     U = lower.Universe(workers=0, tasks=1, clients=len(spec["clients"]), task_kinds=[spec["task"]],
                        cb_kinds=spec["cbs"], regs=2, gates=1)
-    programs = [{"executor": EXECUTOR, "reg1": REG1, "reg2": REG2, "observer": OBSERVER}[c] for c in spec["clients"]]
+    if "reg2n" in spec["clients"]:
+        U.extra_none = {1}
+    programs = [{"executor": EXECUTOR, "reg1": REG1, "reg2": REG2, "reg2n": REG2N, "observer": OBSERVER}[c] for c in spec["clients"]]
     system, lo = lower.build_system(driver.read_source(), driver.NORMALISED, U, programs)
     system.classify()
     done = bmc.all_done(system)
     kind = spec["task"]
     RES, EXC = U.RES0, U.EXC0
     props = []
-    nregs = 2 if "reg2" in spec["clients"] else (1 if "reg1" in spec["clients"] else 0)
+    nregs = 2 if "reg2" in spec["clients"] or "reg2n" in spec["clients"] else (1 if "reg1" in spec["clients"] else 0)
     for j in range(nregs):
         props.append(bmc.Prop("callback {0} invoked at most once".format(j), lambda S, j=j: le(S["cb_count[{0}]".format(j)], 1),
                               finding="C16-double-callback"))
@@ -134,7 +139,7 @@ def build(spec):
             j = int(prop.split()[1])
             return len([c for c in calls if c[0] == j]) > 1
         if "extra of its own" in prop:
-            return any(c[3] != "extra{0}".format(c[0]) for c in calls)
+            return any(c[3] != (None if c[0] in U.extra_none else "extra{0}".format(c[0])) for c in calls)
         return not driver.conforms(driver.model_observations(system, final, U, lo), real, U)
 
     return {"system": system, "lo": lo, "universe": U, "clients": programs, "props": props, "twin": done,
@@ -152,6 +157,10 @@ def specs(tier):
                     continue
                 name = "c16-{0}-{1}-{2}".format(task, "+".join(cb), "+".join(clients))
                 out.append({"name": name, "task": task, "cbs": list(cb), "clients": clients})
+        # the second registration passes no extra: its callback gets None, not the first registration's extra
+        for cb in (("ret", "ret"), ("raise", "ret")):
+            clients = ["executor", "reg2n"]
+            out.append({"name": "c16-{0}-{1}-{2}".format(task, "+".join(cb), "+".join(clients)), "task": task, "cbs": list(cb), "clients": clients})
     return out
 
 
